@@ -144,17 +144,32 @@ def parse_drv(txt):
 _exes = {}
 
 
-def tools():
-    if not _exes:
-        _exes['vpsc'] = C.build_harness('c01_vpsc', ['libvpsc'], 'exc')
-        _exes['avoid'] = C.build_harness('c01_vpsc_avoid', ['libavoid'], 'exc')
-        _exes['drv'] = C.ocaml_build('c01', 'C01.v', 'c01_driver.ml', 'c01_model.ml')
+def tools(force=False):
+    """build (or find in the cache) the two harness variants and the driver.  Other checks share build/obj and may
+    replace a library directory between our compile and link steps, so retry a few times."""
+    import time
+    if force:
+        _exes.clear()
+    if not _exes or not all(os.path.exists(p) for p in _exes.values()):
+        last = None
+        for attempt in range(4):
+            try:
+                _exes['vpsc'] = C.build_harness('c01_vpsc', ['libvpsc'], 'exc')
+                _exes['avoid'] = C.build_harness('c01_vpsc_avoid', ['libavoid'], 'exc')
+                _exes['drv'] = C.ocaml_build('c01', 'C01.v', 'c01_driver.ml', 'c01_model.ml')
+                last = None
+                break
+            except RuntimeError as e:
+                last = e
+                time.sleep(1.5 * (attempt + 1))
+        if last is not None:
+            raise last
     return _exes
 
 
-def run_batch(insts, impl='vpsc', tag='b', enum=False, timeout=1500):
+def run_batch(insts, impl='vpsc', tag='b', enum=False, timeout=240, _retry=True):
     """run the real solver (impl: vpsc | avoid) and the driver on the instances.
-    returns (real: id -> [results], drv: id -> dict, errors: [str])"""
+    returns (real: id -> [results], drv: id -> dict, errors: [str], times)"""
     ex = tools()
     os.makedirs(TMP, exist_ok=True)
     base = os.path.join(TMP, 'c01-%s-%s-%d' % (tag, impl, os.getpid()))
@@ -165,14 +180,26 @@ def run_batch(insts, impl='vpsc', tag='b', enum=False, timeout=1500):
     rc, out, err, dt = C.sh([ex[impl], base + '.cpp.txt'], timeout=timeout)
     real = parse_cpp(out)
     if rc != 0:
-        errors.append('harness %s exit %d: %s' % (impl, rc, err[-1500:]))
+        if rc in (126, 127) or 'No such file' in err or not os.path.exists(ex[impl]):
+            if _retry:
+                tools(force=True)
+                return run_batch(insts, impl, tag, enum, timeout, _retry=False)
+        # the harness died or hung inside the solver: the last announced instance is the culprit
+        last = None
+        for line in out.split('\n'):
+            if line.startswith('I '):
+                last = int(line.split()[1])
+        errors.append({'kind': 'harness', 'impl': impl, 'rc': rc, 'stderr': err[-1500:], 'last_instance': last})
     with open(base + '.drv.txt', 'w') as f:
         for ins in insts:
             f.write(inst_drv_text(ins, real.get(ins['id'], [])))
     rc, out, err, dt2 = C.sh([ex['drv'], base + '.drv.txt'] + (['enum'] if enum else []), timeout=timeout)
     drv = parse_drv(out)
     if rc != 0:
-        errors.append('driver exit %d: %s' % (rc, err[-1500:]))
+        if (rc in (126, 127) or not os.path.exists(ex['drv'])) and _retry:
+            tools(force=True)
+            return run_batch(insts, impl, tag, enum, timeout, _retry=False)
+        errors.append({'kind': 'driver', 'rc': rc, 'stderr': err[-1500:]})
     for p in (base + '.cpp.txt', base + '.drv.txt'):
         try:
             os.remove(p)
@@ -509,7 +536,9 @@ def shrink(ins, fails, budget=400):
 
 def c02_fails(impl):
     def f(ins):
-        real, drv, errs, _ = run_batch([ins], impl, tag='shr')
+        real, drv, errs, _ = run_batch([ins], impl, tag='shr', timeout=60)
+        if errs or ins['id'] not in drv:
+            return False
         a, _ = eval_c02(ins, real.get(ins['id'], []), drv.get(ins['id']), impl)
         return bool(a)
     return f
@@ -517,7 +546,11 @@ def c02_fails(impl):
 
 def c01_fails(impl):
     def f(ins):
-        real, drv, errs, _ = run_batch([ins], impl, tag='shr')
+        real, drv, errs, _ = run_batch([ins], impl, tag='shr', timeout=60)
+        if any(e['kind'] == 'driver' for e in errs) or (not errs and ins['id'] not in drv):
+            return False
+        if errs:
+            return True       # the harness crashed or hung on this instance
         return bool(eval_c01(ins, real.get(ins['id'], []), drv.get(ins['id']), impl))
     return f
 
@@ -589,3 +622,67 @@ def perm_twin(rng, ins, iid):
     cs = rng.shuffle([(p[l], p[r], g, e) for (l, r, g, e) in ins['cs']])
     return {'id': iid, 'kind': ins['kind'], 'vs': vs, 'cs': cs, 'ops': [ins['ops'][0]], 'tag': 'perm-twin',
             'twin_of': ins['id'], 'perm': p}
+
+
+def unscaled_equivalent(ins):
+    """substitute u_i = scl_i * x_i: the same problem with all scales 1, weights wt/scl^2, desired scl*des"""
+    import copy
+    t = copy.deepcopy(ins)
+    t['vs'] = [(Fr(d) * Fr(s), Fr(w) / (Fr(s) * Fr(s)), Fr(1)) for (d, w, s) in ins['vs']]
+    t['ops'] = [('D', o[1], Fr(o[2]) * Fr(ins['vs'][o[1]][2])) if o[0] == 'D' else o for o in ins['ops']]
+    return t
+
+
+def classify_static_scale(ins, k, impl, reltol=Fr(1, 100000)):
+    """fingerprint predicate `static_scale`: the static Solver returns a sub-optimal result on an instance with
+    scaled variables but the optimum on the mathematically equivalent instance with all scales 1."""
+    if ins['kind'] != 'S' or all(Fr(v[2]) == 1 for v in ins['vs']):
+        return False
+    t = unscaled_equivalent(ins)
+    real, drv, errs, _ = run_batch([t], impl, tag='cls')
+    if errs:
+        return False
+    v, st = eval_c02(t, real.get(t['id'], []), drv.get(t['id']), impl, reltol)
+    return not v and st['certified'] > 0
+
+
+# ------------------------------------------------------------------------------------------ gradient-projection style
+def gen_gp_instance(rng, iid, nmax, mag):
+    """what cola's GradientProjection does with one IncSolver: satisfy(), then repeatedly move (nearly) all desired
+    positions a little and satisfy() again; coordinates of magnitude `mag`, non-dyadic values, a few heavy weights"""
+    g = gen_instance(rng, iid, nmax, 'I', False)
+    mag = Fr(mag)
+    jit = lambda: Fr(rng.range(-999, 999), 1000)
+    g['vs'] = [(d * mag + jit() * mag / 100, w * rng.choice([1, 1, 1, 1000, 100000]), s) for (d, w, s) in g['vs']]
+    g['cs'] = [(l, r, gp * mag / 10 + jit(), e) for (l, r, gp, e) in g['cs']]
+    ops = [('F',)]
+    for _ in range(rng.range(2, 5)):
+        for v in range(len(g['vs'])):
+            if rng.chance(2, 3):
+                ops.append(('D', v, g['vs'][v][0] + jit() * mag / 10))
+        ops.append(('F',) if rng.chance(4, 5) else ('S',))
+    g['ops'] = ops
+    g['tag'] = 'gp-mag%g' % float(mag)
+    return g
+
+
+def classify_final_scan_rounding(ins, r, model_status):
+    """fingerprint predicate `final_scan_rounding` for a satisfy()/solve() that threw from its final scan: the exact
+    model returns normally on the same history, and on the solver's internal positions at the time of the throw every
+    unflagged constraint holds up to binary64 rounding of the coordinates (|violation| <= 2^-44 * max coordinate),
+    i.e. the only 'violations' are rounded slacks of tight constraints falling below the absolute -1e-10 threshold."""
+    if r['status'] != 'throw_char' or not r['finite'] or model_status != 'ok':
+        return False
+    vs, cs = cons_at(ins, r['op'])
+    if len(r['U']) != len(cs):
+        return False
+    mx = max([abs(x) for x in r['x']] + [abs(Fr(v[2]) * x) for v, x in zip(vs, r['x'])] + [Fr(1)])
+    lim = mx / (2 ** 44)
+    worst = Fr(0)
+    for j, c in enumerate(cs):
+        if r['U'][j] == '1':
+            continue
+        sl = slack_of(vs, r['x'], c)
+        bad = abs(sl) if (c[3] and r['A'][j] == '1') else -sl
+        worst = max(worst, bad)
+    return worst <= lim
